@@ -48,11 +48,19 @@ func TestC16(t *testing.T) {
 		} else {
 			pcfg["legacy"] = map[string]any{"version": 1, "proto": p.Proto}
 		}
+		cookieVal := spec.CookieValue
 		switch p.CfgCookie {
 		case "emptyKey":
 			pcfg["cookieKey"] = ""
 		case "emptyValue":
 			pcfg["cookieValue"] = ""
+		case "long64":
+			// the conventional form: a hex SHA-256
+			cookieVal = "d602bf8f470bc67ca7faa0386276bbdd4330efaf76d1a219cb4d6991ca9872b2"
+			pcfg["cookieValue"] = cookieVal
+		case "long74":
+			cookieVal = "d602bf8f470bc67ca7faa0386276bbdd4330efaf76d1a219cb4d6991ca9872b2-extra-tail"
+			pcfg["cookieValue"] = cookieVal
 		}
 		if p.PreTest {
 			pcfg["preTestServe"] = true
@@ -88,17 +96,23 @@ func TestC16(t *testing.T) {
 		case "empty":
 			env = append(env, spec.CookieKey+"=")
 		case "prefix":
-			env = append(env, spec.CookieKey+"="+spec.CookieValue[:len(spec.CookieValue)-1])
+			env = append(env, spec.CookieKey+"="+cookieVal[:len(cookieVal)-1])
+		case "prefix64":
+			env = append(env, spec.CookieKey+"="+cookieVal[:min(64, len(cookieVal)-1)])
 		case "suffix":
-			env = append(env, spec.CookieKey+"="+spec.CookieValue+"x")
+			env = append(env, spec.CookieKey+"="+cookieVal+"x")
+		case "newline":
+			env = append(env, spec.CookieKey+"="+cookieVal+"\n")
+		case "othertail":
+			env = append(env, spec.CookieKey+"="+cookieVal[:len(cookieVal)-5]+"OTHER")
 		case "case":
-			env = append(env, spec.CookieKey+"="+strings.ToUpper(spec.CookieValue))
+			env = append(env, spec.CookieKey+"="+strings.ToUpper(cookieVal))
 		case "other":
 			env = append(env, spec.CookieKey+"=something-else")
 		case "padded":
-			env = append(env, spec.CookieKey+"= "+spec.CookieValue+" ")
+			env = append(env, spec.CookieKey+"= "+cookieVal+" ")
 		case "correct":
-			env = append(env, spec.CookieKey+"="+spec.CookieValue)
+			env = append(env, spec.CookieKey+"="+cookieVal)
 		}
 		switch p.MuxEnv {
 		case "empty":
